@@ -244,8 +244,14 @@ impl OccupiedEntry {
         && (final(entry).v is Retryable <==> old(entry).v is Retryable)),
     // a resolved payment is not reopened
     (old(entry).v is Fulfilled || old(entry).v is Abandoned) ==> (!r && final(entry).v == old(entry).v),
+    // (finding F11) the total of a payment a part was just added to is at least what is now in flight: a multi-part payment rebuilt from monitors alone was created with its first part as its total, and PaymentSent reports the total
+    r && old(entry).v is Retryable ==> final(entry).v.spec_total() is Some && final(entry).v.spec_total()->Some_0 >= final(entry).v.spec_pending_amt(),
 //@at body_start
     proof { axiom_u8_32_key_model(); }
+//@mutant total_of_a_payment_rebuilt_from_monitors_stays_at_its_first_part
+    if *total_msat < *pending_amt_msat {
+//@with
+    if false {
 //@mutant waiting_payment_left_waiting_on_restart
     *entry.get_mut() = new_retryable!(); true
 //@with
